@@ -79,8 +79,9 @@ func implInspect(sb []byte) string {
 		}
 		return "ok"
 	})
-	return fmt.Sprintf("type=%s p2pkh=%s p2pk=%s p2sh=%s ms=%s data=%s insc=%s pkh=%s asm=%s pi=%s addrs=%s json=%s",
-		ty, p2pkh, p2pk, p2sh, ms, data, insc, pkh, asm, pi, addrs, js)
+	inscd := q(func() string { return b01(s.IsInscribed()) })
+	return fmt.Sprintf("type=%s p2pkh=%s p2pk=%s p2sh=%s ms=%s data=%s insc=%s pkh=%s asm=%s pi=%s addrs=%s json=%s inscd=%s",
+		ty, p2pkh, p2pk, p2sh, ms, data, insc, pkh, asm, pi, addrs, js, inscd)
 }
 
 func init() {
